@@ -164,6 +164,15 @@ def script_text(spec: Spec, variant: int, dofile: str, gates: bool = False) -> s
         L.append('printf "L $1 3 %s\\n" "$(head -c 20000 /dev/zero | tr \'\\0\' x)" >&2')
         if spec.noise == 2:
             L.append('echo "@@REDO:do:1:1.0000@@ L-$1-fake" >&2')
+        if spec.noise == 128:
+            # a "do" record with an empty text
+            L.append('echo "@@REDO:do:1:1.0000@@ " >&2')
+        if spec.noise == 256:
+            # a line written in two pieces, the cut in the middle of a multi-byte character (UTF-8 e-acute = \303\251)
+            L.append('printf "L $1 9 caf\\303" >&2')
+            if gates:
+                L.append('vgate p "h:$rv_n"')
+            L.append('printf "\\251 ok\\n" >&2')
         if spec.noise == 32:
             # looks like a "done" record, but its text is not "<status> <name>"
             L.append('echo "@@REDO:done:1:1.0000@@ oops" >&2')
